@@ -508,7 +508,25 @@ fn game_chunk(rng: &mut Rng, events: usize, out: &mut dyn Write, claims: bool) {
                 .filter(|m| b0.piece_on(m.get_source()) == Some(Piece::Pawn) && (m.get_source().to_index() as i32 - m.get_dest().to_index() as i32).abs() == 16)
                 .collect();
             if !push.is_empty() {
-                script = vec![push[0]];
+                // ... and then both knights go out and come back, twice: the position after the push occurs three times
+                let knight_trip = |c: Color| -> Option<(ChessMove, ChessMove)> {
+                    let ks = *b0.pieces(Piece::Knight) & *b0.color_combined(c);
+                    if ks == EMPTY {
+                        return None;
+                    }
+                    let from = ks.to_square();
+                    let to = (get_knight_moves(from) & !*b0.combined()).next()?;
+                    Some((ChessMove::new(from, to, None), ChessMove::new(to, from, None)))
+                };
+                let pusher = b0.side_to_move();
+                let mut seq = vec![push[0]];
+                if let (Some((o_out, o_back)), Some((p_out, p_back))) = (knight_trip(!pusher), knight_trip(pusher)) {
+                    for _ in 0..2 {
+                        seq.extend_from_slice(&[o_out, p_out, o_back, p_back]);
+                    }
+                }
+                seq.reverse();
+                script = seq;
             }
         }
         // a marathon game only asks whether a draw could be claimed, it never claims (300+ quiet half-moves)
